@@ -79,7 +79,7 @@ Example ex_unsafe_differs :
   valid init ops /\ ~ valid_safe init ops /\ absw (run init ops) <> dense_run [] ops.
 Proof.
   split; [unfold init; repeat step_valid|]. split.
-  - intros (_ & _ & _ & _ & S & _). unfold safe in S. cbn [writes_cells] in S.
+  - intros (_ & _ & _ & _ & _ & S & _). unfold safe in S. cbn [writes_cells] in S.
     apply (S 0%nat 0%nat); [lia| |]; vm_compute; auto.
   - vm_compute. discriminate.
 Qed.
